@@ -19,10 +19,17 @@ ENCODES = ["pycel.lib.date_time:date_from_int", "pycel.lib.date_time:normalize_y
            "pycel.lib.date_time:months_inc", "pycel.lib.date_time:edate", "pycel.lib.date_time:eomonth",
            "pycel.lib.date_time:weekday", "pycel.lib.date_time:yearfrac", "pycel.lib.date_time:max_days_in_month",
            "pycel.lib.date_time:is_leap_year", "pycel.lib.date_time:time_from_serialnumber"]
-BOUNDS = ["every serial day 0..2958465 as one symbolic integer",
-          "DATE carry: years 1900..9990, months -40..60, days -40..60",
-          "EDATE/EOMONTH: month shifts -1200..1200 (quick: -14..14)",
-          "YEARFRAC: bases 0..4, dates over the whole range (basis 1: within 400 days)",
+BOUNDS = ["round trip, parts, weekday, serial range: every serial day 0..2958465 as one symbolic integer",
+          "DATE carry: years 1900..9990, months -40..60, days 1..60 and 330..420 (thorough: months -1300..1300 with days 1..31)",
+          "civil date against an independent Gregorian oracle: days 0..61 (quick: anchor) and 1900-1931 (thorough); exact month lengths and "
+          "day succession in windows of ~1000 days around 1900, 2000, 2100, 2400 and the end of 9999 (thorough) - beyond day 60 "
+          "date_from_int is DATE_ZERO + timedelta(days=n), so these pin the offset; the calendar in between is CPython's",
+          "EDATE/EOMONTH: around the fictitious 1900-02-29 and the calendar start (quick); thorough: EDATE(n,k) = DATE(y,m+k,d) and "
+          "EOMONTH(n,k) = DATE(y,m+k+1,1)-1 for |k| <= 1200 with n in the 2000 and 2100 windows (a direct month-index oracle over the whole "
+          "range did not conclude: 13..38 paths in 4400 s)",
+          "DATE in a history: Februaries of 1900/1904/2000/2100/2300/2400/9900 x days 28..30, two calls",
+          "YEARFRAC: symmetry for bases 2, 3 over the whole range; bases 0 and 4 with both dates in the 2000 / 2100 windows (thorough); "
+          "basis 1 not decided (458 paths in 900 s, no verdict)",
           "HOUR/MINUTE/SECOND: whole seconds of a day in binary64, 10-minute slices: 00:00, 11:50, 12:00, 23:50 on day 0 (quick); all 144 slices on day 0 and day 45000 (thorough)"]
 ASSUMPTIONS = ["CrossHair's model of datetime/timedelta arithmetic (proleptic Gregorian ordinal arithmetic on symbolic ints)",
                "floats as exact reals in YEARFRAC"]
@@ -153,9 +160,17 @@ def ob_weekday(n: int) -> Optional[bool]:
     return 1 <= w <= 7 and WEEKDAY(n + 7) == w and WEEKDAY(n + 1) == w % 7 + 1
 
 
-def ob_month_end(sl, n: int) -> Optional[bool]:
+# windows of serial days around the years where the Gregorian rules differ (date_from_int is affine in n beyond day 60:
+# DATE_ZERO + timedelta(days=n); what these obligations pin is the offset and the 1900 quirk, the calendar itself is
+# CPython's)
+WINDOWS = {"1900-1902": (61, 1000), "1999-2001": (36200, 37200), "2099-2101": (72700, 73700), "2399-2401": (182300, 183300),
+           "9998-9999": (MAXN - 700, MAXN - 1)}
+
+
+def ob_month_end(w, n: int) -> Optional[bool]:
     """successive days: the day number restarts at 1 exactly when the month (or year) changes"""
-    if not (61 <= n < MAXN and _in_slice(n, sl)):
+    lo, hi = WINDOWS[w] if w is not None else (61, MAXN - 1)
+    if not lo <= n <= hi:
         return None
     y, m, d = YEAR(n), MONTH(n), DAY(n)
     y2, m2, d2 = YEAR(n + 1), MONTH(n + 1), DAY(n + 1)
@@ -271,10 +286,14 @@ def ob_date_range(y: int, m: int, d: int) -> Optional[bool]:
     return isinstance(r, (int, float, str))
 
 
-def ob_eomonth(K, n: int, k: int) -> Optional[bool]:
+def _win(w):
+    return WINDOWS[w] if w is not None else (61, MAXN)
+
+
+def ob_eomonth(K, w, n: int, k: int) -> Optional[bool]:
     """EOMONTH(n,k) is the last day of the month k months away: the next day is the 1st, and the month index
     (12*year+month) moved by exactly k; out-of-range results are #NUM!, never an exception"""
-    if not (61 <= n <= MAXN and -K <= k <= K):
+    if not (_win(w)[0] <= n <= _win(w)[1] and -K <= k <= K):
         return None
     r = EOMONTH(n, k)
     idx = YEAR(n) * 12 + MONTH(n) - 1 + k
@@ -293,9 +312,9 @@ def ob_eomonth_low(n: int, k: int) -> Optional[bool]:
     return isinstance(r, (int, float, str))
 
 
-def ob_edate(K, n: int, k: int) -> Optional[bool]:
+def ob_edate(K, w, n: int, k: int) -> Optional[bool]:
     """EDATE(n,k) shifts by whole months: same day number (days <= 28), month index moved by exactly k"""
-    if not (61 <= n <= MAXN and -K <= k <= K):
+    if not (_win(w)[0] <= n <= _win(w)[1] and -K <= k <= K):
         return None
     d = DAY(n)
     if d > 28:
@@ -309,9 +328,38 @@ def ob_edate(K, n: int, k: int) -> Optional[bool]:
     return YEAR(r) * 12 + MONTH(r) - 1 == idx and DAY(r) == d
 
 
-def ob_yearfrac_sym(basis, a: int, b: int) -> Optional[bool]:
+def ob_months_glue(K, w, n: int, k: int) -> Optional[bool]:
+    """EDATE(n,k) = DATE(y, m+k, d) and EOMONTH(n,k) = DATE(y, m+k+1, 1) - 1 for (y, m, d) the parts of n, every serial day
+    and |k| <= K: with DATE against the Gregorian oracle (date_carry*, months -1300..1300) this is the month arithmetic"""
+    if not (_win(w)[0] <= n <= _win(w)[1] and -K <= k <= K):
+        return None
+    y, m, d = YEAR(n), MONTH(n), DAY(n)
+    e, eo = EDATE(n, k), EOMONTH(n, k)
+    de, deo = DATE(y, m + k, d), DATE(y, m + k + 1, 1)
+    if isinstance(de, str) or isinstance(e, str):
+        if not same(e, de):
+            return False
+    elif e != de:
+        return False
+    if isinstance(deo, str) or isinstance(eo, str):
+        return same(eo, deo)
+    return eo == deo - 1
+
+
+def ob_date_carry_wide(y: int, m: int, d: int) -> Optional[bool]:
+    """DATE carries any number of months (as EDATE/EOMONTH over +-100 years need)"""
+    if not (1901 <= y <= 9990 and -1300 <= m <= 1300 and 1 <= d <= 31):
+        return None
+    ref = _ref_date(y, m, d)
+    if ref is None or not (1901 <= y + (m - 1) // 12 <= 9990):
+        return None
+    return same(DATE(y, m, d), ref)
+
+
+def ob_yearfrac_sym(basis, w, a: int, b: int) -> Optional[bool]:
     """YEARFRAC is symmetric in its dates and zero on equal dates"""
-    if not (61 <= a <= MAXN and 61 <= b <= MAXN):
+    lo, hi = _win(w)
+    if not (lo <= a <= hi and lo <= b <= hi):
         return None
     if basis == 1 and not -400 <= a - b <= 400:
         return None
@@ -394,17 +442,19 @@ def obligations(tier):
     add("eomonth_low", "ob_eomonth_low", (), 300 * T, group="months")
     add("yearfrac_range", "ob_yearfrac_range", (), 200, group="yearfrac")
     for basis in (2, 3):
-        add(f"yearfrac_sym[{basis}]", "ob_yearfrac_sym", (basis,), 900, group="yearfrac")
+        add(f"yearfrac_sym[{basis}]", "ob_yearfrac_sym", (basis, None), 900, group="yearfrac")
     slices = (0, 71, 72, 143) if tier == "quick" else tuple(range(144))
     for sl in slices:
         for day in ((0,) if tier == "quick" else (0, 45000)):
             add(f"time_of_day[{sl * 10 // 60:02d}:{sl * 10 % 60:02d}+10min,day={day}]", "kb_time", (sl, day), 600, engine="K", group="time")
     if tier == "thorough":
-        for sl in range(NSLICE):
-            add(f"month_end[slice {sl}/{NSLICE}]", "ob_month_end", (sl,), 2400, group="calendar")
-        add("civil[slice 0/256]", "ob_civil", (0, 256), 2400, group="calendar")
-        add("eomonth[K=1200]", "ob_eomonth", (1200,), 3000, group="months")
-        add("edate[K=1200]", "ob_edate", (1200,), 3000, group="months")
-        for basis in (0, 1, 4):
-            add(f"yearfrac_sym[{basis}]", "ob_yearfrac_sym", (basis,), 3000, group="yearfrac")
+        for w in WINDOWS:
+            add(f"month_end[{w}]", "ob_month_end", (w,), 1500, group="calendar")
+        add("civil[1900-1931]", "ob_civil", (0, 256), 2400, group="calendar")
+        for w in ("1999-2001", "2099-2101"):
+            add(f"months_glue[K=1200,{w}]", "ob_months_glue", (1200, w), 1500, group="months")
+        add("date_carry_wide", "ob_date_carry_wide", (), 2400, group="date")
+        for w in ("1999-2001", "2099-2101"):
+            for basis in (0, 4):
+                add(f"yearfrac_sym[{basis},{w}]", "ob_yearfrac_sym", (basis, w), 900, group="yearfrac")
     return obs
